@@ -6,6 +6,14 @@ ROOT = os.path.dirname(os.path.dirname(os.path.abspath(__file__)))
 
 # id -> (level category, level text, level note, technique, design ref)
 CHECKS = {
+ "C12": ("exploration",
+   "Every Interface method x every allow/deny assignment to the (repository, access kind) pairs it needs (both sides of a mount) x {AccessChecker, Select} is executed over populated backends (the finite core, enumerated), then thousands of random histories under random pure policies; a recording backend shows whether the wrapped registry was invoked, and a twin registry called directly gives the expected behaviour of allowed calls and of filtered listings.",
+   "Trusted: the documented method->access-kind mapping, the twin ocimem registry as reference for allowed calls. Read and list verdicts of generated policies are kept equal because the listing filter's access kind is unspecified.",
+   "runtime monitor: recording backend + twin-registry differential under enumerated and random policies", "3/C12"),
+ "C13": ("exploration",
+   "Sub(rec(memA), prefix) runs next to a twin memB called with prefixed names, both seeded with sentinel content outside the prefix (the prefix itself, textual siblings, names equal to inner ones). Every method x valid/absent/ill-formed caller names (dot, dotdot, slashes, empty, mutated) x 5 prefixes, plus histories and listings from many start points; the recorder shows every repository name and auth scope reaching the wrapped registry.",
+   "Trusted: the twin ocimem registry as the restricted registry; ill-formed caller names are required to fail (prefix/n is then not a repository name). Scopes in generated contexts have non-empty resources.",
+   "runtime monitor: recording backend (names + context scopes) + twin-registry differential + sentinel content", "3/C13"),
  "C02": ("exploration",
    "Generated histories (1.5e3 x 40 calls quick; 4e4 x 60 + 2e3 x 400 thorough) of every Interface method and fine-grained BlobWriter operation run on a fresh ocimem registry in both tag modes; every return value is judged online by an independent sequential reference model and the whole observable state (listings from several start points, every resolve/get/referrers over the universe) is compared after every 8th call. Histories are sampled, not enumerated; a small colliding universe gives depth, a random one breadth.",
    "Trusted: the reference model in internal/model (written from interface.go and the property text). Empty repositories may be unknown or empty; blob media types, message texts and PushManifest failure codes (interface.go documents none) are not compared.",
